@@ -99,6 +99,7 @@ type proxyCfg struct {
 	IdPAdvertisedPKCE     []string      // code_challenge_methods_supported of the discovery document (nil = S256 and plain)
 	RedisRealTime         bool          // miniredis TTLs run down in real time (they are otherwise frozen): locks and entries really expire
 	RedisReadTimeout      time.Duration // read_timeout of the Redis client (0 = the client's default of 3 s)
+	ShowDebugOnError      bool          // --show-debug-on-error: error pages show the underlying error text
 	RequestLoggingFormat  string        // --request-logging-format ("" = default)
 	AuthLoggingFormat     string        // --auth-logging-format ("" = default)
 	AllowQuerySemicolons  bool          // --allow-query-semicolons (takes effect in the proxy's own server only)
@@ -227,6 +228,7 @@ func newEnv(c *suiteCtx, cfg proxyCfg) (*testEnv, error) {
 		}
 	}
 	o.Server.BindAddress = cfg.BindAddress
+	o.Templates.Debug = cfg.ShowDebugOnError
 	if cfg.RequestLoggingFormat != "" {
 		o.Logging.RequestFormat = cfg.RequestLoggingFormat
 	}
@@ -559,7 +561,7 @@ func (e *testEnv) varyDeployment(o *options.Options) {
 		o.PingPath, o.ReadyPath = "/healthz", "/readyz"
 	}
 	o.GCPHealthChecks = pick(3) == 1
-	o.Templates.Debug = pick(3) == 1
+	o.Templates.Debug = o.Templates.Debug || pick(3) == 1
 	switch pick(3) {
 	case 1:
 		o.Templates.Banner, o.Templates.Footer = "-", "-"
